@@ -2,6 +2,9 @@ import Lean.Data.Json
 import GristModel
 import Driver.Treeview
 import Driver.Engine
+import Driver.Zone
+import Driver.FetchQuery
+import Driver.Choices
 import Driver.RowIds
 import Driver.PyVal
 import Driver.Recalc
@@ -34,6 +37,9 @@ def handleStateless (m : String) (j : Json) : Except String Json :=
   | "recalc" => Grist.Driver.Recalc.handleRecalc j
   | "pyval" => Grist.Driver.PyValD.handlePyVal j
   | "rowids" => handleRowIds j
+  | "choices" => handleChoices j
+  | "fetchquery" => handleFetchQuery j
+  | "zone" => handleZone j
   | _ => throw s!"unknown model {m}"
 
 structure AllState where
